@@ -6,6 +6,7 @@
 package c13
 
 import (
+	"time"
 	"bytes"
 	stdjson "encoding/json"
 	"fmt"
@@ -121,6 +122,7 @@ type endState struct {
 	jsonBad string
 	abandoned int
 	exact     int
+	pings     int
 }
 
 func payloadOf(o kernel.Op) []byte {
@@ -236,6 +238,13 @@ func run(p *kernel.Plan) (res *kernel.Result) {
 				lvl = p.C("slevel")
 			}
 			c.SetCompressionLevel(int(lvl))
+			// pings are answered like the default handler does, except that a pong
+			// that can no longer be written (this side has already finished and
+			// closed its half of the transport) does not end the reading
+			c.SetPingHandler(func(m string) error {
+				c.WriteControl(websocket.PongMessage, []byte(m), time.Now().Add(time.Hour))
+				return nil
+			})
 			var mine []kernel.Op
 			for _, op := range p.Ops {
 				if op.T == e {
@@ -247,6 +256,16 @@ func run(p *kernel.Plan) (res *kernel.Result) {
 				// already done so": some writers are left open when the next message
 				// goes through NextWriter (directly or inside WriteMessage/WriteJSON)
 				leaveOpen := oi+1 < len(mine) && mine[oi+1].N[3] != 4 && op.N[4]%5 == 0
+				if oi > 0 && mine[oi-1].N[4]%5 == 0 && mine[oi-1].N[3] >= 1 && mine[oi-1].N[3] <= 3 && op.N[3] != 4 && op.N[4]%2 == 0 {
+					// the previous writer may still be open: a ping sent as a message
+					// has to finish it first, like any other NextWriter
+					if err := c.WriteMessage(websocket.PingMessage, []byte("k")); err != nil {
+						st.sent = append(st.sent, sent{typ: websocket.PingMessage, err: err, api: 6})
+						break
+					}
+					st.pings++
+					res.Stat("pings_sent_as_messages_behind_an_open_writer", 1)
+				}
 				typ := int(op.N[0])
 				if op.N[3] == 4 {
 					op.N = append([]int64(nil), op.N...)
@@ -532,8 +551,21 @@ func run(p *kernel.Plan) (res *kernel.Result) {
 		if verr != nil {
 			return res.Fail("C13/wire-rfc6455", "%s: %v", names[e], verr)
 		}
-		if len(ctrl) != 0 {
-			return res.Fail("C13/wire-unexpected-control", "%s: %d control frames although none was sent", names[e], len(ctrl))
+		// control frames: the pings this endpoint sent as messages, and pongs
+		// answering the peer's pings (written by this endpoint's reader)
+		nping, npong := 0, 0
+		for _, cf := range ctrl {
+			switch {
+			case cf.Op == 9 && string(cf.Payload) == "k":
+				nping++
+			case cf.Op == 10 && string(cf.Payload) == "k":
+				npong++
+			default:
+				return res.Fail("C13/wire-unexpected-control", "%s: a control frame (opcode %d, %d bytes) nobody sent", names[e], cf.Op, len(cf.Payload))
+			}
+		}
+		if nping != from.pings || npong > to.pings {
+			return res.Fail("C13/wire-unexpected-control", "%s: %d pings on the wire, %d sent; %d pongs, the peer sent %d pings", names[e], nping, from.pings, npong, to.pings)
 		}
 		if len(msgs) != len(from.sent) {
 			return res.Fail("C13/wire-message-count", "%s: %d messages written, %d on the wire", names[e], len(from.sent), len(msgs))
